@@ -16,6 +16,7 @@ Definition as_hint (t : tree) : option rhint :=
   | TL [TI 1; TI z] => Some (HInt z)
   | TL [TI 2; TI b] => Some (HFloat b)
   | TL [TI 3; d] => match as_dtime' d with Some d' => Some (HDT d') | None => None end
+  | TL [TI 4; TI b] => Some (HFloatLoose b)
   | _ => None
   end.
 
